@@ -34,8 +34,8 @@ func (t *vTeardownDouble) Teardown(context.Context, adapters.ObjectSetAccessor) 
 }
 
 type vReconcilerDouble struct {
-	calls   int
-	outcome int // 0 ok, 1 error, 2 adoption refused style error is covered in C01
+	calls        int
+	outcome      int // 0 ok, 1 error, 2 adoption refused style error is covered in C01
 	setAvailable bool
 }
 
